@@ -59,6 +59,12 @@ func (stressArea) Gen(r *hx.Rng, n int, tier string, emit func(string)) {
 				r.U64()%1000000))
 			continue
 		}
+		if i%40 == 27 {
+			// Submit racing Shutdown: accepted before the close, or a panic in the caller
+			emit(fmt.Sprintf("race %d %d %d %d %d", hx.Pick(r, []int{1, 2, 5}), hx.Pick(r, []int{2, 4, 16}), hx.Pick(r, []int{1, 2, 4}),
+				300, r.U64()%1000000))
+			continue
+		}
 		flags := 0
 		switch {
 		case i%20 == 7:
@@ -134,6 +140,8 @@ func (stressArea) run1(line string) string {
 	child, procs := "child-stress", ""
 	if len(f) == 6 && f[0] == "first" {
 		child, procs = "child-first", f[2] // simultaneous first use of fresh queues (firstuse.go)
+	} else if len(f) == 6 && f[0] == "race" {
+		child, procs = "child-race", f[2] // Submit racing Shutdown (firstuse.go)
 	} else if (len(f) != 11 && len(f) != 12) || f[0] != "run" {
 		return "bad-op"
 	} else {
